@@ -65,3 +65,28 @@ Example scan_example :
     [60;112;32;97;61;39;120;39;62;10;9;60;115;99;114;105;112;116;62;97;60;98;60;47;115;99;114;105;112;116;62] = inl toks
     /\ length toks = 5%nat.
 Proof. eexists; split; [vm_compute; reflexivity | reflexivity]. Qed.
+
+(* ---- print_scan extended to RAW-TEXT elements (Proofs/PrintScanRaw.v, session 3): a written sequence may contain
+   elements  <name attrs> content </close_name>  whose name is in the raw-text list; wf_wtoksR asks of such an element
+   exactly that close_name lower-cases to the name, contains no blank, '<' or '>', and that the content contains no
+   complete close-tag candidate (raw_content_okb: the candidate automaton of the scanner — '<' restarts, blanks are
+   skipped, the blank-free lower-cased text must stay a prefix of </name> — never completes).  Then scanning the print
+   recovers: the open tag, ONE text token holding exactly the content (none when it is empty), the close tag as written —
+   interleaved with the plain tokens as in print_scan (which is the special case plain_embed).  raw_oracle_ok: '<' and '/'
+   are not white space and to_lower fixes '<' '/' '>' — each fact shown necessary by a counterexample (the need_ examples). *)
+From Tpl Require Import Proofs.PrintScanRaw.
+Theorem print_scan_raw : forall (is_space : rune -> bool) (to_lower : rune -> rune) (text_tags : list str) (attr_prefix : str) (compile : attr -> bool),
+  oracle_ok is_space -> raw_oracle_ok is_space to_lower ->
+  forall ws, wf_wtoksR is_space to_lower text_tags attr_prefix compile ws ->
+  exists toks, scan is_space to_lower text_tags attr_prefix compile (print_wtoksR ws) = inl toks /\
+               map shape_of toks = concat (map shapes_of_wR ws).
+Proof. exact PrintScanRaw.print_scan_raw. Qed.
+Theorem print_scan_is_a_special_case : forall is_space to_lower text_tags attr_prefix compile ws,
+  wf_wtoks is_space to_lower text_tags attr_prefix compile ws ->
+  wf_wtoksR is_space to_lower text_tags attr_prefix compile (map WPlain ws) /\
+  print_wtoksR (map WPlain ws) = print_wtoks ws /\
+  concat (map shapes_of_wR (map WPlain ws)) = map shape_of_w ws.
+Proof. exact PrintScanRaw.plain_embed. Qed.
+Theorem print_scan_raw_nonvacuous : exists toks, rx_scan (print_wtoksR rx_ws) = inl toks /\ map shape_of toks = concat (map shapes_of_wR rx_ws).
+Proof. exact PrintScanRaw.print_scan_raw_example_thm. Qed.
+Print Assumptions print_scan_raw.
